@@ -182,6 +182,9 @@ var allocLimit uint64
 func UUIDCalls() int                { return -1 }
 func Note(s string)                 {}
 
+// Setenv sets a variable of the process environment (the symbolic environment is empty otherwise).
+func Setenv(name, value string) { os.Setenv(name, value) }
+
 // Quiesce waits until every other goroutine is blocked (channel, select, mutex, sleep).
 func Quiesce() {
 	stable := 0
